@@ -151,6 +151,15 @@ pub fn run(ctx: &Ctx) -> CheckOutput {
                     JobOut { stats: st, viols: sink.take(), samples: vec![json!({"explorer":"TREE","scalar":"f64","view":spec.name(),"alphabet":alpha,"depth":depth})] }
                 }));
             }
+            if alpha.len() == 3 {
+                let (spec, alpha) = (spec.clone(), alpha.clone());
+                jobs.push(Box::new(move || {
+                    let mut st = Stats::default();
+                    let sink = Sink::new();
+                    ref_tree::<f32>("C11", &spec, &alpha, depth.min(6), &mut st, &sink, &|h, hf, v, out| oracle::<f32>(&spec, h, hf, v, out));
+                    JobOut { stats: st, viols: sink.take(), samples: vec![] }
+                }));
+            }
             if n <= 4 {
                 let (spec, alpha) = (spec.clone(), alpha.clone());
                 let depth = depth.min(if quick { 7 } else { 8 });
